@@ -2,7 +2,7 @@
 HANDLER = "C19"
 RULE = ("(table) the pattern ASTs of create_rewrites() dumped by the harness vs the model's rule table; "
         "(cond) ArithRewrite::eval_condition vs the model on ALL width/sign assignments with widths <= 6 (quick) / 8 (thorough) plus assignments "
-        "at the edge of u32 and 3000/40000 per rule with log-uniform random widths up to u32::MAX (partly correlated); (inst) every rule x every width/sign assignment with widths <= 4 (quick) / 5 (thorough): both patterns instantiated as "
+        "at the edge of u32 and 3000/40000 per rule with log-uniform random widths up to u32::MAX (partly correlated); (inst) every rule x every width/sign assignment with widths <= 4 (quick) / 5 (thorough; plus <= 7 for the two-operand rules and <= 6 for the three-operand rules with exhaustive values up to 10 bits): both patterns instantiated as "
         "tools/egraphs-cond-synth does, lowered with the real from_arith (structural comparison with the model), evaluated with the real eval_expr on "
         "all operand values when the side condition holds and the operands have <= 12 bits in total (else on corner + random samples), compared with "
         "the model's value and lhs vs rhs (property oracle); (sample) directed random assignments up to 24/64 bits satisfying the side conditions 5/6 of "
@@ -59,6 +59,11 @@ def _streams(tier, seed):
         dict(tag="cond8", count=0, seed=seed, extra={"mode": "cond", "bound": 8, "extreme": 400, "random": 40000}),
         dict(tag="inst5", count=0, seed=seed, extra={"mode": "inst", "bound": 5, "exh_bits": 12, "samples": 256}),
     ]
+    # one more bit per width parameter: all of the two-operand rules at <= 7, the three-operand rules at <= 6
+    for r in ("commute-add", "commute-mul", "mult-to-add"):
+        out.append(dict(tag="inst7-" + r, count=0, seed=seed, extra={"mode": "inst", "bound": 7, "rule": r, "exh_bits": 12, "samples": 256}))
+    for r in ("merge-left-shift", "unmerge-left-shift", "left-shift-mult"):
+        out.append(dict(tag="inst6-" + r, count=0, seed=seed, extra={"mode": "inst", "bound": 6, "rule": r, "exh_bits": 10, "samples": 96}))
     for k in range(4):
         out.append(dict(tag="sample64-%d" % k, count=12000, seed=seed * 1000 + k, extra={"mode": "sample", "maxw": 64, "samples": 64}))
     out.append(dict(tag="sample128", count=6000, seed=seed * 1000 + 9, extra={"mode": "sample", "maxw": 128, "samples": 32}))
